@@ -3,7 +3,7 @@
    check_distinct pairs are regenerated from cutplace/data.py on every run. *)
 From Coq Require Import String.
 From CP Require Import Model.Base Generated.Consts Generated.FormatTable Model.Ranges Model.Lex Model.RangeParse
-  Model.DataFormat Proofs.DataFormatProofs.
+  Model.DataFormat Spec.FieldSpec Proofs.DataFormatProofs Proofs.SpellingProofs.
 Local Open Scope Z_scope.
 
 (* the documented value sets, written out; compared with the tables read from the source *)
@@ -72,3 +72,14 @@ Example spellings_example :
   map validated_character [txt ";"; txt "59"; txt "0x3b"; txt "';'"; txt """;"""; txt "'\x3b'"; txt "tab"; txt "TAB"; txt "9"; txt "'\t'"]
   = [ChOk 59; ChOk 59; ChOk 59; ChOk 59; ChOk 59; ChOk 59; ChOk 9; ChOk 9; ChOk 9; ChOk 9]%N.
 Proof. vm_compute. reflexivity. Qed.
+
+(* spellings of a character: a code point written as its decimal number, and a character written as itself, denote that
+   code point (for every code point; through the tokenizer model) - hence set the same item delimiter. The other spellings
+   (hex, quoted, symbolic names) are compared by correspondence for every code point of a pool. *)
+Theorem decimal_code_denotes_code_point : forall n, 0 <= n <= 1114111 -> validated_character (nat_text n) = ChOk (Z.to_N n).
+Proof. exact decimal_code_spelling. Qed.
+Theorem character_denotes_itself : forall c, is_digit c = false -> validated_character [c] = ChOk c \/ strip [c] = [].
+Proof. exact literal_character_spelling. Qed.
+Theorem item_delimiter_decimal_and_literal_agree : forall d c known, is_digit c = false -> strip [c] <> [] -> c <> 0%N -> (Z.of_N c) <= 1114111 ->
+  set_property d KEY_ITEM_DELIMITER (nat_text (Z.of_N c)) known = set_property d KEY_ITEM_DELIMITER [c] known.
+Proof. exact item_delimiter_spellings_agree. Qed.
